@@ -91,6 +91,13 @@ thorough_values = False
 def small_values(s, defs):
     t = {"k": "struct", "ptr": False, "s": s}
     out = [("b1", U.base_value(t, defs, 2, 0, 1)), ("b2", U.base_value(t, defs, 3, 3, 2))]
+    # every container present but empty: the header (type codes, count 0) is all there is to check
+    ev = U.zero_struct(s, defs)
+    for f in defs[s]["fields"]:
+        if f["t"]["k"] in ("list", "set", "map") and not f["t"].get("ptr"):
+            ev["f"][f["key"]] = U.zero_elem(f["t"], defs)
+    if any(f["t"]["k"] in ("list", "set", "map") for f in defs[s]["fields"]):
+        out.append(("e", ev))
     if thorough_values:
         out += [("b3", U.base_value(t, defs, 3, 1, 3)), ("b4", U.base_value(t, defs, 2, 5, 1)), ("z", U.zero_struct(s, defs))]
     if defs[s].get("unk"):
@@ -119,7 +126,7 @@ def run(prop, tier, seed, work):
     types = ["Sc", "Co", "St", "Re", "LeafUnk", "LeafReq"]
     for s in types:
         for (vl, v) in small_values(s, defs):
-            muts = ["prefix", "subst", "len"] if (vl in ("b1", "b1u") or not quick) else ["prefix"]
+            muts = ["prefix", "subst", "len"] if (vl in ("b1", "b1u", "e") or not quick) else ["prefix"]
             for mut in muts:
                 cases.append({"cid": "%s|%s|%s" % (s, vl, mut), "w": s, "val": v, "ord": "asc", "trail": [], "mut": mut})
     msgs, st = vlib.gen_messages(work, defs_path, cases)
@@ -139,6 +146,9 @@ def run(prop, tier, seed, work):
                 continue
             seen.add(key)
             steps.append({"op": "decode", "ty": s, "in": m, "dest": "fresh", "guard": True})
+            if c["mut"] in ("prefix", "len") and len(steps) % 2:
+                # the same bytes as the front of a larger buffer (spare capacity behind them, as in a reused read buffer)
+                steps.append({"op": "decode", "ty": s, "in": m, "dest": "fresh", "slack": 256})
         # chunks of 200 inputs per scenario (a crash loses the rest of one chunk only)
         for i in range(0, len(steps), 200):
             sid = "C05-%s-%d" % (c["cid"], i)
